@@ -19,6 +19,11 @@ func c01Cfg(rng *rand.Rand, producers, batches int, parts int32) plogCfg {
 		CacheBytes:    []int{0, 1 << 20}[rng.Intn(2)],
 		MaxSteps:      600,
 	}
+	if parts > 1 && rng.Intn(2) == 0 {
+		// the listing done by a partition log's first-touch restore becomes a scheduling point, so that requests
+		// for DIFFERENT partitions can overlap inside the initialisation window
+		cfg.Gated = append(cfg.Gated, "list")
+	}
 	if rng.Intn(3) == 0 {
 		cfg.CancelBudget = 1 // one request may lose its client (context cancelled) while its uploads are in flight
 	}
